@@ -34,7 +34,7 @@ func c26Call(id int64, f func()) { f() }
 func TestC26(t *testing.T) {
 	r := mon.New("C26", "per run one reader, one writer, 2-6 concurrent Handshake/HandshakeContext callers with their own contexts, Close/CloseWrite and cancellations at PRNG-chosen moments, random delays at every Read/Write of the transport (real suspension points) and at the uTLS handshake yield points (hook H10); scenarios: normal server, server that stalls (no I/O deadline: cancellation is the only way out), cancellation after return, benign runs without any I/O deadline (explicit handshake callers, or only Read and Write starting the handshake implicitly) in which every call must return successfully and the echo must complete. Oracle: zero race-detector reports; every call returns; each handshake caller returns nil only if the connection reports HandshakeComplete, or the shared handshake error, or its own context's error (then the connection is closed); cancelling a context after its call returned leaves the connection usable. distinct = interleaving signatures (order of call returns and tap events)")
 	defer r.Finish(t)
-	n := mon.Pick(500, 8000)
+	n := mon.Pick(500, 60000)
 	ids := []tls.ClientHelloID{tls.HelloChrome_133, tls.HelloFirefox_120, tls.HelloGolang, tls.HelloChrome_102, tls.HelloIOS_14, tls.HelloRandomizedALPN}
 	var sigMu sync.Mutex
 	sigs := map[string]bool{}
